@@ -18,31 +18,16 @@ theorem gen_term_depth_rule :
     ConstantsSchema.termDepthOp = ">" ∧
     ConstantsSchema.parseTermCalls = [("from_str", "0"), ("parse_arguments", "depth + 1")] := by decide +kernel
 
-/-- `Term::from_str` of the model with the constant and the message of the source, for every text (both variants) -/
+/-- `Term::from_str` of the model with the constant of the source, for every text (both variants) -/
 theorem gen_term_from_str (pinned : Bool) (s : Text) :
     Term.fromStrWith pinned s = (do
       let (t, rest) ← parseTerm pinned (3 * s.length + 16) s
-      if t.depth > ConstantsSchema.MAX_TERM_DEPTH then fail ConstantsSchema.termDepthMessage
+      if t.depth > ConstantsSchema.MAX_TERM_DEPTH then fail "Term is nested too deeply"
       else if trimStart rest = [] then pure t else fail "Trailing content in term") := rfl
 
 example : (Term.fromStr "List(List(I8))".toList).isOk = true := by decide +kernel
 
 /-- `STRATEGY_KEY` -/
 theorem gen_strategy_key : ConstantsSchema.STRATEGY_KEY = SaModel.STRATEGY_KEY := by decide +kernel
-
-/-- the message texts of the model that are the source's texts verbatim (dsl.rs, schema/serde/deserialize.rs, schema/mod.rs,
-utils/value.rs) -/
-def verbatim : List String :=
-  ["Invalid unicode escape in quoted string", "Missing end quote", "Invalid escape sequence in quoted string",
-   "No identifier found", "Missing ')'", "Term is nested too deeply", "Expected identifier, found quoted string",
-   "Expected identifier, found call", "Expected string, found identifier", "Expected call, found quoted string",
-   "Invalid children for List: expected one child", "Invalid children for LargeList: expected one child",
-   "Invalid children for Dictionary: expected two children", "Invalid children for Map: expected one child",
-   "Invalid FixedSizedBinary with negative number of elements", "Time32 field must have Second or Millisecond unit",
-   "Time64 field must have Microsecond or Nanosecond unit", "Invalid child data type for map, expected struct with 2 fields",
-   "Invalid FixedSizeList with negative number of elements", "Cannot extract string from non-string value",
-   "missing field `fields`"]
-
-theorem gen_messages : verbatim.all (fun m => ConstantsSchema.messages.any (fun t => decide (t = m))) = true := by decide +kernel
 
 end SaModel.Props.ConstGenSchema
